@@ -34,6 +34,7 @@ HB_INTERVAL = 1.0
 WATCHDOG = 3000.0  # virtual seconds without completion => the stream is pending
 SERVE_WAIT = 600.0
 STALL = 20.0  # virtual seconds without new body bytes => a scripted drop fires now
+GROW_AT = 5.0  # virtual seconds after a connection is opened at which its scripted mid-connection appends happen
 
 _mods: dict[str, Any] = {}
 
@@ -110,8 +111,29 @@ def make_store(case: dict) -> Any:
     for ev in case["events"]:
         evs.append(m["abs"].StoredEvent(run_id=RUN, sequence=ev["seq"], timestamp=datetime.now(timezone.utc),
                                         event=envelope_of(ev)))
-    store.events[RUN] = evs
+    store.all_events = evs
+    # a growing log ("vis" on the connections): the transport reveals the events step by step
+    store.events[RUN] = [] if case.get("live") else evs
+    if case.get("live"):
+        store.final_status = case.get("status", "running")
+        store.handlers[HANDLER] = store.handlers[HANDLER].model_copy(update={"status": "running"})
     return store
+
+
+async def reveal(store: Any, upto: int) -> None:
+    """The run has appended its events up to index `upto` (monotone, idempotent); the handler's
+    persisted status becomes the scripted final one together with the last event."""
+    allev = store.all_events
+    cur = store.events.get(RUN, [])
+    if upto > len(cur):
+        cur.extend(allev[len(cur):upto])
+        store.events[RUN] = cur
+    if len(cur) >= len(allev) and store.handlers[HANDLER].status != store.final_status:
+        store.handlers[HANDLER] = store.handlers[HANDLER].model_copy(update={"status": store.final_status})
+    cond = store._conditions.get(RUN)
+    if cond is not None:
+        async with cond:
+            cond.notify_all()
 
 
 def make_api(store: Any, hb: float | None) -> Any:
@@ -300,6 +322,7 @@ class ScriptedTransport(httpx.AsyncBaseTransport):
         self.i = 0
         self.requests: list[dict] = []
         self.records: list[dict] = []
+        self.growers: list[Any] = []
 
     async def handle_async_request(self, request: httpx.Request) -> httpx.Response:
         conns = self.case["conns"]
@@ -310,6 +333,8 @@ class ScriptedTransport(httpx.AsyncBaseTransport):
         self.requests.append(params)
         self.records.append(rec)
         fault = conn.get("f", "none")
+        if self.case.get("live") and "vis" in conn and self.store is not None:
+            await reveal(self.store, int(conn["vis"]))
         if fault == "refuse":
             raise httpx.ConnectError("scripted refusal", request=request)
         if fault == "tconn":
@@ -331,6 +356,12 @@ class ScriptedTransport(httpx.AsyncBaseTransport):
             rec["status"] = int(e.status_code)
             return httpx.Response(int(e.status_code), content=b'{"detail":"x"}', request=request)
         rec["status"] = 200
+        if self.case.get("live") and conn.get("vis2") is not None:
+            async def grow(upto: int = int(conn["vis2"])) -> None:
+                await asyncio.sleep(GROW_AT)
+                await reveal(self.store, upto)
+
+            self.growers.append(asyncio.ensure_future(grow()))
         media = getattr(resp, "media_type", None) or "text/event-stream"
         return httpx.Response(200, headers={"content-type": f"{media}; charset=utf-8"},
                               stream=CutStream(resp.body_iterator, conn, request, rec), request=request)
@@ -396,6 +427,9 @@ def run_real(case: dict) -> dict:
         except BaseException:  # noqa: BLE001
             pass
         await hc.aclose()
+        for g in transport.growers:
+            g.cancel()
+        await asyncio.gather(*transport.growers, return_exceptions=True)
         obs["reqs"] = [r.get("after_sequence") for r in transport.requests]
         obs["records"] = transport.records
         obs["params"] = transport.requests[:1]
@@ -407,5 +441,37 @@ def run_real(case: dict) -> dict:
 def run_serve(case: dict, cursor: str, hb_counts: list[int]) -> tuple[int, str | None, bool]:
     async def main(_loop: Any) -> tuple[int, str | None, bool]:
         return await serve_body(case, cursor, hb_counts)
+
+    return vloop.run_virtual(main, max_time=None)
+
+
+# --------------------------------------------------------------------------
+# the client's line iterator alone
+
+
+def run_iter_lines(chunks: list[str], eof: bool) -> str:
+    """What the real `_iter_sse_lines` yields for a response whose decoded text arrives in `chunks`;
+    `eof=False`: `aiter_text` raises `httpx.ReadError` after the last chunk."""
+    m = mods()
+
+    class FakeResponse:
+        async def aiter_text(self):  # noqa: ANN202
+            for c in chunks:
+                yield c
+                await asyncio.sleep(0)
+            if not eof:
+                raise httpx.ReadError("scripted drop")
+
+    async def main(_loop: Any) -> str:
+        got: list[str] = []
+        try:
+            async for line in m["client"]._iter_sse_lines(FakeResponse()):
+                got.append(line)
+        except httpx.ReadError:
+            if eof:
+                return "error:ReadError"
+        except Exception as e:  # noqa: BLE001
+            return "error:" + type(e).__name__
+        return f"n={len(got)} " + ";".join("l" + ",".join(str(ord(ch)) for ch in line) for line in got)
 
     return vloop.run_virtual(main, max_time=None)
